@@ -15,6 +15,7 @@ import (
 	"sort"
 	"strconv"
 	"strings"
+	"sync"
 	"time"
 
 	"github.com/fluffle/goirc/client"
@@ -75,6 +76,8 @@ type rig struct {
 	s        *sess.Session
 	tracking bool
 	seen     int // wire lines already accounted for
+	mu       sync.Mutex
+	atConn   []string // Me().Nick as seen by a foreground CONNECTED handler, once per welcome
 }
 
 func newRig(tracking bool) (*rig, string) {
@@ -83,6 +86,16 @@ func newRig(tracking bool) (*rig, string) {
 	if tracking {
 		r.s.C.EnableStateTracking()
 	}
+	// CONNECTED is delivered once the welcome has been applied: its handlers already see the nick the server uses
+	r.s.C.HandleFunc(client.CONNECTED, func(c *client.Conn, l *client.Line) {
+		n := "<nil>"
+		if me := c.Me(); me != nil {
+			n = me.Nick
+		}
+		r.mu.Lock()
+		r.atConn = append(r.atConn, n)
+		r.mu.Unlock()
+	})
 	if err := r.s.Connect(); err != nil {
 		return nil, "connect: " + err.Error()
 	}
@@ -187,6 +200,15 @@ func (r *rig) apply(e *edge, check bool) string {
 		msgs = append(msgs, fmt.Sprintf("%s: after %s the client wrote %q, the model expects %q", prop, o.Ev, got, want))
 	}
 	// (b) C17: the client's own nick
+	if o.Ev == "welcome" {
+		r.mu.Lock()
+		seen := append([]string{}, r.atConn...)
+		r.atConn = nil
+		r.mu.Unlock()
+		if len(seen) != 1 || seen[0] != pre.Snick {
+			msgs = append(msgs, fmt.Sprintf("C17: a CONNECTED handler saw Me().Nick = %q, the welcome line said %q", seen, pre.Snick))
+		}
+	}
 	me := r.s.C.Me()
 	cm := r.s.C.Config().Me
 	wantNick := pre.Snick
